@@ -9,7 +9,7 @@
     [interior_taken] which branch decides, [pruned] the test xDotC2 > c2*minDist. *)
 From Coq Require Import ZArith Reals Floats Bool List.
 From Geo Require Import Base.GoPrim Base.F64 Gen.EdgeDist Model.PolylineOps
-  Proofs.C17_FloatFacts Proofs.C17_Threshold Proofs.C17_Interp Proofs.C17_Endpoint.
+  Proofs.C17_FloatFacts Proofs.C17_Threshold Proofs.C17_Interp Proofs.C17_Endpoint Proofs.C17_EdgePair.
 Import ListNotations.
 Local Open Scope R_scope.
 
@@ -113,6 +113,33 @@ Theorem edge_pair_no_update_keeps_minimum : forall a0 a1 b0 b1 m d ok,
   (ok = false -> d = m \/ PrimFloat.eqb m 0%float = true).
 Proof. exact edge_pair_monotone. Qed.
 Print Assumptions edge_pair_no_update_keeps_minimum.
+
+(** EdgePairClosestPoints: the four vertex-edge probes thread one running minimum ([cp_value k] is
+    the minimum held after probe k: a0|B with alwaysUpdate, then a1|B, b0|A, b1|A). The winning
+    vertex is the last probe that lowered it; the value held there is the final minimum, which is <=
+    every probe value and < every earlier one; the pair returned is that vertex and its projection. *)
+Theorem edge_pair_closest_vertex_is_argmin : forall a0 a1 b0 b1,
+  nonnan (cp_m0 a0 a1 b0 b1) -> nonnan (fst (cp_r1 a0 a1 b0 b1)) ->
+  nonnan (fst (cp_r2 a0 a1 b0 b1)) -> nonnan (fst (cp_r3 a0 a1 b0 b1)) ->
+  let cv := m_closestVertex a0 a1 b0 b1 in
+  let M := fst (cp_r3 a0 a1 b0 b1) in
+  (0 <= cv <= 3)%Z /\
+  cp_value a0 a1 b0 b1 cv = M /\
+  (forall k, (0 <= k <= 3)%Z -> rank M <= rank (cp_value a0 a1 b0 b1 k)) /\
+  (forall k, (0 <= k < cv)%Z -> rank M < rank (cp_value a0 a1 b0 b1 k)).
+Proof. exact closest_vertex_argmin. Qed.
+Print Assumptions edge_pair_closest_vertex_is_argmin.
+
+Theorem edge_pair_closest_points_shape : forall a0 a1 b0 b1 isect,
+  m_EdgePairClosestPoints true isect a0 a1 b0 b1 = (isect, isect) /\
+  m_EdgePairClosestPoints false isect a0 a1 b0 b1 =
+  (let cv := m_closestVertex a0 a1 b0 b1 in
+   if (cv =? 0)%Z then (a0, s2_Project a0 b0 b1)
+   else if (cv =? 1)%Z then (a1, s2_Project a1 b0 b1)
+   else if (cv =? 2)%Z then (s2_Project b0 a0 a1, b0)
+   else (s2_Project b1 a0 a1, b1)).
+Proof. intros. exact (conj (closest_points_crossing a0 a1 b0 b1 isect) (closest_points_shape a0 a1 b0 b1 isect)). Qed.
+Print Assumptions edge_pair_closest_points_shape.
 
 (** ** interpolation *)
 Theorem interpolate_ends : forall a b,
